@@ -930,6 +930,9 @@ namespace sim
 			void cancel(boost::system::error_code& ec);
 			void cancel();
 
+			void open(tcp protocol, boost::system::error_code& ec);
+			void open(tcp protocol);
+
 			void listen(int qs = -1);
 			void listen(int qs, boost::system::error_code& ec);
 
